@@ -12,11 +12,13 @@ from .. import lib
 PROP = "C16"
 RULE = ("cases: (1) exhaustive: every ordered tuple of <=3 (quick) / <=4 (thorough) proteins, each with any subset "
         "(also the empty one) of <=3 / <=4 peptides - i.e. every incidence structure in every FASTA entry order - "
-        "under two naming schemes (all targets; target/decoy pairs), each peptide realised as a real tryptic string "
+        "under two naming schemes (all targets; target/decoy pairs; for 4 proteins the two schemes alternate over the "
+        "structures instead of both being run), each peptide realised as a real tryptic string "
         "and each protein as the concatenation of its peptides, parsed by the real read_fasta([KR], 0 missed "
         "cleavages, min_length 2); (2) random larger structures (chains of subsets, a protein inside two others, "
         "equal sets, repeated peptides in a sequence, junk below min_length, descriptions, wrapped sequences, two "
-        "files, other prefixes, entry-order shuffles of the same structure); (3) random sequences digested with "
+        "files, other prefixes, entry-order shuffles of the same structure); (2b) names with the decoy prefix inside, "
+        "at the end, bare, truncated, upper-cased, doubled; (3) random sequences digested with "
         "random parameters (missed cleavages, semi, clip, min/max length) where the incidence is what the public "
         "mokapot.digest returns per protein; (4) malformed: repeated protein names, only decoys, no peptides, empty "
         "file.  Every case is run by the real code in one subprocess per PYTHONHASHSEED (3 quick / 5 thorough) and "
@@ -233,12 +235,15 @@ def gen(ctx):
     for n in range(1, nmax + 1):
         tnames = [f"P{j}" for j in range(n)]
         dnames = [(f"T{j // 2}" if j % 2 == 0 else f"decoy_T{j // 2}") for j in range(n)]
-        for tup in itertools.product(subs, repeat=n):
+        for idx, tup in enumerate(itertools.product(subs, repeat=n)):
             struct = [list(s) for s in tup]
             multi = _multi(struct)
             tg = ["exhaustive", f"n={n}"] + (["multi-match"] if multi else [])
-            cases.append(mk_case(struct, tnames, rk.randrange(24), tg + ["targets-only"]))
-            cases.append(mk_case(struct, dnames, rk.randrange(24), tg + ["target-decoy-pairs"]))
+            # n <= 3: both naming schemes; n = 4: the two schemes alternate over the structures
+            if n <= 3 or idx % 2 == 0:
+                cases.append(mk_case(struct, tnames, rk.randrange(24), tg + ["targets-only"]))
+            if n <= 3 or idx % 2 == 1:
+                cases.append(mk_case(struct, dnames, rk.randrange(24), tg + ["target-decoy-pairs"]))
             if multi:
                 cases.append(mk_case(struct, tnames, rk.randrange(1, 720), tg + ["targets-only", "second-order"]))
     # (2) random larger structures
@@ -281,7 +286,8 @@ def gen(ctx):
         names = []
         for j in range(len(struct)):
             r = rng.random()
-            base = rng.choice(["sp|Q%d|X" % j, "P%d" % j, "d%d" % j, prefix.upper() + str(j)])
+            base = rng.choice(["sp|Q%d|X" % j, "P%d" % j, "d%d" % j, prefix.upper() + str(j),
+                               "X" + prefix + str(j), "T%d_" % j + prefix])
             if r < 0.25 and names:
                 t = rng.choice(names)
                 cand = prefix + t
@@ -309,6 +315,14 @@ def gen(ctx):
             cases.append(mk_case([struct[i] for i in perm], [names[i] for i in perm], rng.randrange(5040),
                                  ["random", kind, layout, "reordered"], prefix=prefix, layout=layout,
                                  extra_seq=[extra[i] for i in perm]))
+    # (2b) where the prefix stands in a name: inside, at the end, the bare prefix, a proper prefix of it, other case
+    for pre in ("decoy_", "rev_", "d"):
+        pool = ["A", pre + "A", "x" + pre + "A", "A" + pre, pre, pre[:-1] or "q", pre.upper() + "A", pre + pre + "A",
+                "B", "x" + pre + "B"]
+        for names in itertools.combinations(pool, 3):
+            for struct in ([[0, 1], [1], [2]], [[0], [0], [0, 1]]):
+                cases.append(mk_case(struct, list(names), rk.randrange(24), ["prefix-position", "prefix=" + pre],
+                                     prefix=pre))
     # (3) random sequences through the real digest with random parameters
     rng = ctx.sub("digest")
     ndig = 600 if ctx.thorough else 150
